@@ -167,6 +167,7 @@ pub struct Remote {
     pub closed_at: Option<u64>,
     pub dropped_at: Option<u64>,
     pub decode_error: Option<String>,
+    pub write_failed: Option<String>,
     completion: Option<promise::Receiver<DisconnectionReason>>,
     pub completion_reason: Option<String>,
     attached: Option<trigger::Receiver>,
@@ -532,6 +533,7 @@ impl World for AsWorld {
                 closed_at: None,
                 dropped_at: None,
                 decode_error: None,
+                write_failed: None,
                 completion: Some(comp_rx),
                 completion_reason: None,
                 attached: Some(att_done_rx),
@@ -747,6 +749,11 @@ impl World for AsWorld {
                     }
                 };
                 if done {
+                    if !self.quiescent_seen && self.stop_fired_at.is_none() {
+                        // the agent ended on its own (a handler failed): the run is no longer a
+                        // fault-free run and the quiescence oracles do not apply
+                        self.fault_before_quiescence = true;
+                    }
                     let r = self.subject.result.as_ref().map(|r| r.as_ref().map(|_| ()).map_err(|e| e.to_string()));
                     self.log(format!("subject completed: {:?}", r));
                 }
@@ -884,7 +891,9 @@ impl World for AsWorld {
                 enc.encode(msg, &mut buf).expect("encode");
                 if let Some(tx) = r.tx.as_mut() {
                     if let Err(e) = write_all_now(tx, &buf) {
-                        r.decode_error.get_or_insert(format!("harness write: {}", e));
+                        // the agent has gone away (ended or failed): nothing is claimed about this envelope
+                        r.tx = None;
+                        r.write_failed = Some(e);
                     }
                 }
                 r.sent.push((step, item.clone()));
